@@ -33,6 +33,10 @@ ENG_A = "simio"
 ENG_B = "simnet"
 
 CHECKS = {
+ "C05": dict(level="exploration", engine=ENG_A, design="DESIGN.md §4 C05",
+   technique="deterministic simulation with fault injection: valid encodings damaged by seeded storage/transport faults (torn, flipped, zeroed, duplicated, transposed, spliced blocks; layout-aware length/VR/tag damage; nesting bombs) served through a short-reading source with a read-call budget into every reader entry point; panics caught in-process, aborts attributed by the supervisor (process isolation), hangs by budget + watchdog",
+   text="Seeded search over (valid input, fault sequence, read segmentation, reader options). Every public reading entry point (files with/without preamble, meta group, eager/lazy/collector data-set readers in every transfer syntax incl. deflated and flexible VR, DICOM JSON, PDUs, pixel decoding with native/RLE/JPEG decoders, dump, textual tag/selector/date parsers on harvested strings) must return Ok or Err: no panic (class = innermost dicom-rs source location), no abort (each case runs in a worker process; a death is attributed to its run and described by a dry re-execution), no hang (read-call budget 256+8*len, plus a wall-clock watchdog confirmed by a solitary re-run). Four known findings (unbounded recursion per nested sequence level -> stack overflow) are listed in known_findings.jsonl.",
+   note="Build has overflow checks and debug assertions ON. Allocation failure is not injected: readers that allocate what a damaged length field says are slow, not failing; the largest request is recorded as a probe (allocations >= 64 MiB are served with huge pages, >= 512 MiB limited to 4 concurrent processes). LUT/`to_vec` conversions after decoding are not called (not a reading entry point). The string clause is plain input mutation with no simulator dimension."),
  "C34": dict(level="fault_enumeration", engine=ENG_A, design="DESIGN.md §4 C34",
    technique="deterministic simulation with fault enumeration: each workload is executed fault-free for reference and then once per failing byte offset of the simulated writer/reader/transport (exhaustive for outputs <= 600 bytes, 128 sampled + boundaries above); oracle = Err, or Ok with output identical to the fault-free run inspected after all drops",
    text="For generated data sets, files, PDUs and P-DATA messages the simulated sink or source fails at every byte offset (exhaustive for small outputs) with six I/O error kinds or a zero-length write, once or persistently. The public operation (write_dataset_with_ts(_options), write_all, write_dataset, write_meta incl. Deflated Explicit LE; read_dataset_with_ts, from_reader, FileMetaTable::from_reader; write_pdu, PDataWriter write/finish, read_pdu_from_wire, PDataReader) must return Err, or Ok with exactly the fault-free output/value; the sink is inspected only after every value is dropped so that bytes lost in Drop impls are seen. Two known findings (deflate stream finished in Drop) are listed in known_findings.jsonl.",
